@@ -549,6 +549,54 @@ func Run(r *mc.Run) {
 			})
 	}
 
+	// ---- scenario 1e: the padding byte. "Data padded to even length" does not say with what: ar(1) writes '\n',
+	// other writers NUL. Every odd-sized member takes every padding byte, in every position of archives of 1..3
+	// members; an odd-sized LAST member also without its padding byte. ----
+	var padShapes []gen.ArmMember
+	for _, d := range [][]byte{[]byte("z"), []byte("ab`\nc"), data61()} {
+		for _, p := range []string{"\n", "\x00", " ", "x", "\xff"} {
+			padShapes = append(padShapes, gen.ArmMember{Name: fmt.Sprintf("o%d", len(d)), TS: "1", UID: "2", GID: "3", Mode: "644", Data: d, Pad: p})
+		}
+	}
+	padShapes = append(padShapes, gen.ArmMember{Name: "even", TS: "1", UID: "2", GID: "3", Mode: "644", Data: []byte("`\n")})
+	padArchs := archives(len(padShapes), 3)[1:]
+	r.Scenario("padding-byte", map[string]interface{}{"odd_sizes": []int{1, 5, 61}, "padding_bytes": []string{"\\n", "NUL", "blank", "x", "0xff"}, "members": "1..3",
+		"archives": len(padArchs), "last_member": "padded, and (odd size) also unpadded", "readerat_conventions": 2, "schedules": 3},
+		(len(padArchs)+chunk-1)/chunk, func(shard int, st *mc.Stats) bool {
+			lim := limiter{}
+			for ai := shard * chunk; ai < (shard+1)*chunk && ai < len(padArchs); ai++ {
+				base := build(padShapes, padArchs[ai])
+				variants := [][]gen.ArmMember{base}
+				if last := len(base) - 1; len(base[last].Data)%2 == 1 && base[last].Pad == "\n" {
+					np := append([]gen.ArmMember(nil), base...)
+					np[last].NoPad, np[last].Pad = true, ""
+					variants = append(variants, np)
+				}
+				for _, ms := range variants {
+					b := gen.ArmBuild(ms)
+					exp := expectAll(ms)
+					for conv := 0; conv < 2; conv++ {
+						for _, ops := range schedules(len(ms)) {
+							_, f := runOps(b, exp, conv, ops)
+							st.Evals++
+							st.Traces++
+							st.Transitions += int64(len(ops))
+							if f != nil {
+								st.Class("violation:" + f.clause)
+								if lim.ok(f.clause + fmt.Sprint(conv)) {
+									record(st, checkSeq("padding-byte", In{Members: ms, Conv: conv, Ops: ops}))
+								}
+							} else {
+								st.Class("ok")
+							}
+						}
+					}
+					st.Nontrivial++
+				}
+			}
+			return !r.Expired()
+		})
+
 	// ---- scenario 1d: members that are tars - IsTarfile / Tarfile called directly on what Next returns ----
 	tarScenarios(r)
 
